@@ -33,7 +33,14 @@ pub struct BatchResult {
 
 struct Shared {
     result: Mutex<BatchResult>,
+    /// crashes + hangs seen so far in this batch
+    crash_events: AtomicU64,
+    /// circuit breaker: once a batch has seen this many crashes or hangs the property is violated many
+    /// times over and every further one costs a full CPU budget; stop the batch instead
+    stop: AtomicBool,
 }
+
+const MAX_CRASH_EVENTS: u64 = 24;
 
 fn cpu_ticks(pid: u32) -> Option<u64> {
     let s = std::fs::read_to_string(format!("/proc/{}/stat", pid)).ok()?;
@@ -101,7 +108,7 @@ fn crash_doc(cfg: &BatchCfg, index: u64, clause: &str, class: &str, detail: &str
 
 pub fn run_batch(cfg: &BatchCfg) -> BatchResult {
     let t0 = Instant::now();
-    let shared = Arc::new(Shared { result: Mutex::new(BatchResult::default()) });
+    let shared = Arc::new(Shared { result: Mutex::new(BatchResult::default()), crash_events: AtomicU64::new(0), stop: AtomicBool::new(false) });
     let stride = cfg.workers.max(1);
     let mut handles = Vec::new();
     for slot in 0..stride {
@@ -124,6 +131,9 @@ pub fn run_batch(cfg: &BatchCfg) -> BatchResult {
             let mut next = first;
             // one slot = one strided sub-range; a dead worker is replaced and the range continues
             while next < cfg.end {
+                if shared.stop.load(Ordering::SeqCst) {
+                    break;
+                }
                 let mut child = spawn_worker(&cfg, next, stride, slot);
                 let pid = child.id();
                 let stdout = child.stdout.take().unwrap();
@@ -138,12 +148,17 @@ pub fn run_batch(cfg: &BatchCfg) -> BatchResult {
                     let hung = hung.clone();
                     let minimising = minimising.clone();
                     let budget_ticks = cfg.hang_cpu_s * 100;
+                    let shared_wd = shared.clone();
                     std::thread::spawn(move || {
                         let mut last_index = u64::MAX;
                         let mut last_shrinking = false;
                         let mut base = 0u64;
                         while !done.load(Ordering::SeqCst) {
                             std::thread::sleep(Duration::from_millis(250));
+                            if shared_wd.stop.load(Ordering::SeqCst) {
+                                unsafe_kill(pid);
+                                return;
+                            }
                             let idx = current.load(Ordering::SeqCst);
                             let cpu = match cpu_ticks(pid) {
                                 Some(c) => c,
@@ -234,7 +249,7 @@ pub fn run_batch(cfg: &BatchCfg) -> BatchResult {
                 let status = child.wait();
                 done.store(true, Ordering::SeqCst);
                 let _ = wd.join();
-                if finished {
+                if finished || shared.stop.load(Ordering::SeqCst) {
                     break;
                 }
                 // the worker died with a run in flight
@@ -264,6 +279,9 @@ pub fn run_batch(cfg: &BatchCfg) -> BatchResult {
                     ("abort".to_string(), abort_class(&what), format!("worker process died during run {}: {}", idx, what))
                 };
                 let doc = crash_doc(&cfg, idx, &clause, &class, &detail);
+                if shared.crash_events.fetch_add(1, Ordering::SeqCst) + 1 >= MAX_CRASH_EVENTS {
+                    shared.stop.store(true, Ordering::SeqCst);
+                }
                 {
                     let mut r = shared.result.lock().unwrap();
                     r.worker_restarts += 1;
@@ -289,6 +307,10 @@ pub fn run_batch(cfg: &BatchCfg) -> BatchResult {
         let _ = h.join();
     }
     let mut r = std::mem::take(&mut *shared.result.lock().unwrap());
+    if shared.stop.load(Ordering::SeqCst) {
+        r.stats.inc("harness.batch_stopped_early_after_repeated_crashes_or_hangs");
+        println!("NOTE: batch {} stopped early after {} crashes/hangs (each costs a full CPU budget)", cfg.tag, MAX_CRASH_EVENTS);
+    }
     r.wall_s = t0.elapsed().as_secs_f64();
     r.runs = r.stats.counters.get("runs").copied().unwrap_or(0);
     r
